@@ -293,6 +293,10 @@ TimerExec(st, e, it) ==
            \cup B(st.inRun /\ ~st.runAdv, "C15", "timers evaluated although time did not advance")
            \cup B(Lt(st.now, tm.eff), "C07", "timer fired before its effective expiry")
            \cup B(pendPre # {}, "C19", "timer callback ran before calls queued before run()")
+           \cup B(\E j \in pendPre : pre[j].k \in {"call", "retcall", "fwdcall"}, "C02",
+                  "a timer's call overtook actor calls that were made (queued) before it")
+           \cup B(\E j \in pendPre : pre[j].k = "item", "C01",
+                  "a timer callback overtook main-queue closures submitted before run()")
            \cup ordBad
       s1 == [stc EXCEPT !.timers[tid].s = "f",
                         !.fired = IF fixedShort THEN Append(@, tid) ELSE @]
@@ -613,7 +617,14 @@ ApplyVDrop(st, e) ==
                                         IF x = e.aid THEN [@[x] EXCEPT !.vdropped = TRUE]
                                         ELSE IF x \in kids THEN [@[x] EXCEPT !.own = @ - 1] ELSE @[x]],
                           !.mainQ = @ \o SelectSeq(terms, LAMBDA t : r0.st.actors[t.aid].own = 1)]
-  IN R(s1, r0.bad
+  IN IF ~a.hasval /\ a.s = "zombie"
+     THEN \* a value returned by a Prep step that also failed/stopped the actor: it never became
+          \* the actor's value; it is simply dropped when that step returns
+          \* (a slab handed to it goes with it: its children lose their owner)
+          R([s1 EXCEPT !.actors[e.aid].vdropped = a.vdropped],
+            B(a.running > 0, "C03", "actor value dropped while one of its methods is running"))
+     ELSE
+     R(s1, r0.bad
            \cup B(a.vdropped, "C03", "actor value dropped twice")
            \cup B(a.running > 0, "C03", "actor value dropped while one of its methods is running")
            \cup B(a.notified /\ a.cause # "none", "C03", "actor value dropped after the termination notification"))
